@@ -1348,7 +1348,20 @@ impl CaseEngine for C26 {
                                 }
                                 Some(h) if acting.contains(h) => {}
                                 _ => {
-                                    held.insert(p.clone(), primary);
+                                    // a request that creates a database from another one (copy) acts for two identities: what it
+                                    // writes into the target owner's directory belongs to the new one, what it merely reads (or
+                                    // touches elsewhere) to the source
+                                    let owner_of_file = match (this, created) {
+                                        (Some(t), Some(n)) => {
+                                            if c.mutating && in_root(&dst_owner) {
+                                                n
+                                            } else {
+                                                t
+                                            }
+                                        }
+                                        _ => primary,
+                                    };
+                                    held.insert(p.clone(), owner_of_file);
                                 }
                             }
                             rep.count("file_ownership_checks");
